@@ -297,6 +297,24 @@ def r3_index(ctx):
     idx = 'self._document.measure_start_tree_stages'
     apps = [n for n in walk_local(run_.node) if isinstance(n, ast.Call) and src(n.func) == f'{idx}.append']
     ctx.expect_count('R3', 'appends to the measure index', len(apps), 1)
+    # the index only grows: an entry, once recorded, is the stage where that measure starts.  Overwriting, inserting or removing an
+    # entry while importing makes the measure count of a prefix of the text differ from the count the same rows give in a longer text.
+    imp_cls = run_.cls
+    for m_ in (imp_cls.methods.values() if imp_cls is not None else [run_]):
+        for n in walk_local(m_.node):
+            hit = None
+            if isinstance(n, (ast.Assign, ast.AugAssign, ast.Delete)):
+                tg = n.targets if isinstance(n, (ast.Assign, ast.Delete)) else [n.target]
+                if any(isinstance(t, ast.Subscript) and src(t.value).endswith('measure_start_tree_stages') for t in tg):
+                    hit = n
+            if isinstance(n, ast.Call) and isinstance(n.func, ast.Attribute) and src(n.func.value).endswith('measure_start_tree_stages') \
+                    and n.func.attr in ('pop', 'insert', 'remove', 'clear', 'reverse', 'sort'):
+                hit = n
+            if hit is not None:
+                ctx.violation('R3', f'{m_.module.relpath}:{hit.lineno}', m_.qualname, 'measure-index-entry-rewritten',
+                              f'`{src(hit)[:70]}` changes an entry of the measure index after it was recorded: the number of measures of a prefix '
+                              f'of the text (what concat computes for each fragment) no longer agrees with the index of the whole text, and '
+                              f'the stage of an already opened measure moves')
     col_loops = [n for n in walk_local(run_.node) if isinstance(n, ast.For) and 'enumerate(row)' in src(n.iter)]
     if not col_loops:
         raise AnalysisError(f'{run_.loc}: Importer.run has no loop over the cells of a row (the cells are imported by a helper called from an '
